@@ -27,7 +27,7 @@ def run(exe, scripts, timeout=60, env=None, valgrind=False):
     if env: e.update(env)
     cmd = [exe, path, "--timeout", str(timeout), "--errdir", tmpd]
     if valgrind:
-        cmd = ["valgrind", "-q", "--error-exitcode=79", "--track-origins=no", "--child-silent-after-fork=no"] + cmd
+        cmd = ["valgrind", "-q", "--error-exitcode=79", "--track-origins=yes", "--child-silent-after-fork=no", "--num-callers=12"] + cmd
     errp = os.path.join(tmpd, "err.txt")
     with open(errp, "w") as ef:
         p = subprocess.run(cmd, stdout=subprocess.PIPE, stderr=ef, env=e)
@@ -44,6 +44,9 @@ def run(exe, scripts, timeout=60, env=None, valgrind=False):
     for r in res.values():
         ep = os.path.join(tmpd, r.sid + ".err")
         if os.path.exists(ep): r.stderr = open(ep, errors="replace").read()[-20000:]
+    try: gl = open(errp, errors="replace").read()[-60000:]
+    except Exception: gl = ""
+    for r in res.values(): r.global_stderr = gl
     import shutil; shutil.rmtree(tmpd, ignore_errors=True)
     return res
 
